@@ -31,6 +31,7 @@ CALLS = [
     (r'^move\|', '{0}'), (r'^forward\|', '{0}'),
     (r'^size\|.*(tensor_dims_t|std::array)', 'nv_size({&0})'),
     (r'^operator=\|.*std::array', '({0} = {1})'),
+    (r'^operator\[\]\|.*std::array', '{0}.d[{1}]'),
     (r'^ctor\|(nano::)?tensor_base_t[^|]*\|void \((const )?(nano::)?tensor_base_t<[^>]*> &&?\)', 'base_copy_ctor(' + B + 'self, ' + B + '{&0})'),
     (r'^ctor\|(nano::)?tensor_base_t[^|]*\|void \(\)', 'base_default_ctor(' + B + 'self)'),
     (r'^ctor\|(nano::)?tensor_base_t', 'base_ctor(' + B + 'self, {0})'),
@@ -61,6 +62,8 @@ MEMBERS = [
     (r'^operator=\|std::array', '({*self} = {0})'),
     (r'^_resize\|', 'base__resize(' + B + '{self}, {&0})'),
     (r'^dims\|', '(*base_dims(' + B + '{self}))'),
+    # size<k>() == dims[k] (proved on the SMT side: tmodel.m_size); member-call keys end in the explicit template arguments
+    (r'^size\|.*\|<0>$', 'nv_extent(' + B + '{self}, 0)'), (r'^size\|.*\|<1>$', 'nv_extent(' + B + '{self}, 1)'), (r'^size\|.*\|<2>$', 'nv_extent(' + B + '{self}, 2)'),
     (r'^size\|.*(tensor_base_t|storage_t|tensor_t)', 'base_size(' + B + '{self})'),
     (r'^resize\|.*(Eigen|PlainObjectBase)', 'nv_evec_resize({self}, {0})'),
     (r'^resize\|.*tensor_vector_storage_t', 'vs_resize_dims({self}, {&0})'),      # resize(sizes...) forwarding to resize(dims)
